@@ -20,7 +20,7 @@ ASSUMPTIONS = ['argsort = stable insertion sort by key (distinct wavelengths)',
                'np.loadtxt / np.savetxt(%.17g) and h5py round-trip float64 exactly (container I/O is external: files are '
                'really written and really read by the repo loaders)',
                'np.searchsorted as in C05; rounding not modelled: rel 1e-12 on loaded quantities, 1e-10 on binned',
-               'source tie: the numpy primitives are the definitions of lean/TaurexModel/Gen/Prelude.lean (element-wise ops with 1-D broadcasting, slices, searchsorted = count, stable argsort, masks, np.where, take); the list dialect of the translator (harness/translate_list.py) is part of the trusted base']
+               'source tie: the numpy primitives are the definitions of lean/TaurexModel/Gen/Prelude.lean (element-wise ops with 1-D broadcasting, slices, searchsorted = count, stable argsort, masks, np.where, take); the list dialect of the translator (harness/translate_list.py) is part of the trusted base; for the translated file loaders the content of the file is an input (the four HDF5 datasets as optional arrays, absent = KeyError; the array np.loadtxt returns)']
 
 REL = 1e-12
 
@@ -29,6 +29,8 @@ REL = 1e-12
 # (TaurexModel/Observation.lean).  `self._obs_spectrum` is a 2-D array (`List (List α)`, one inner list per row); an object
 # is represented by the values of the attributes its methods assign (`state`).
 _AS = 'taurex/data/spectrum/array.py'
+_TS = 'taurex/data/spectrum/taurex.py'
+_OS = 'taurex/data/spectrum/observed.py'
 _AS_ATTRS = {'self._obs_spectrum': ('obs', 'rows'), 'self._bin_widths': ('bin_widths', 'list'),
              'self._bin_edges': ('bin_edges', 'list'), 'self._wnwidths': ('wnwidths', 'list')}
 
@@ -67,6 +69,22 @@ SRC_SPECS = [
          attrs={'self._wngrid': ('u_wngrid', 'list'), 'self._wngrid_width': ('u_wngrid_width', 'list')}),
     dict(dialect='list', module='taurex/binning/binner.py', cls='Binner', func='bin_model', lean='bin_model',
          params=dict(model_output=('tuple', ('list', 'list')))),
+    # the two file loaders.  The content of the file is an input: the four datasets `_load_from_hdf5` reads are the
+    # parameters `h5_Output_Spectra_<name> : Option (List α)` (named after the path strings in the source text; `none` = no
+    # such object = KeyError), the array `np.loadtxt` returns is `loadtxt filename`.  `super().__init__(…)` is the
+    # translated `ArraySpectrum.__init__` (`resolve_super`: the single base class of the loader's class).
+    dict(dialect='list', module=_TS, cls='TaurexSpectrum', func='_load_from_hdf5', callname='self._load_from_hdf5',
+         lean='load_from_hdf5', params=dict(filename='str'), raise_value='[]',
+         resources={'h5py.File': dict(lean='h5', args=['str', ('const', 'r')],
+                                      datasets={'Output/Spectra/instrument_' + k: 'list'
+                                                for k in ('wngrid', 'spectrum', 'noise', 'wnwidth')})}),
+    dict(dialect='list', module=_TS, cls='TaurexSpectrum', func='__init__', callname='TaurexSpectrum',
+         lean='taurexspectrum_init', params=dict(filename='str'), attrs=_AS_ATTRS, rows_ncols='ncols', resolve_super=True,
+         state=['self._obs_spectrum', 'self._bin_widths', 'self._bin_edges', 'self._wnwidths']),
+    dict(dialect='list', module=_OS, cls='ObservedSpectrum', func='__init__', callname='ObservedSpectrum',
+         lean='observedspectrum_init', params=dict(filename='str'), attrs=_AS_ATTRS, rows_ncols='ncols', resolve_super=True,
+         vexternals={'np.loadtxt': dict(lean='loadtxt', args=['str'], ret='rows')},
+         state=['self._obs_spectrum', 'self._bin_widths', 'self._bin_edges', 'self._wnwidths']),
 ]
 SOURCES = ['array', 'text', 'hdf5']
 
